@@ -240,6 +240,18 @@ pub fn in_class(class: &str, l: &srp::Login) -> bool {
         "B-high-zero-2" => l.b_pub[31] == 0 && l.b_pub[30] == 0,
         "v-high-zero-1" => l.v[31] == 0 && l.v[30] != 0,
         "v-high-zero-2" => l.v[31] == 0 && l.v[30] == 0,
+        // one 32-bit limb short (an honest login gets there once in 2^31): found by tools in wsearch.rs
+        "v-high-zero-4" => l.v[28..].iter().all(|b| *b == 0),
+        "A-high-zero-4" => l.a_pub[28..].iter().all(|b| *b == 0),
+        "B-high-zero-4" => l.b_pub[28..].iter().all(|b| *b == 0),
+        "B-below-2^222" => l.b_pub[28..].iter().all(|b| *b == 0) && l.b_pub[27] >> 6 == 0,
+        "B-within-2^222-of-N" => {
+            // 3v + g^b lies just below a multiple of N
+            let d = srp::n_builtin().sub(&refmodel::big::U::from_le_bytes(&l.b_pub));
+            d.bits() <= 222
+        }
+        "u-high-zero-4" => l.u[16..].iter().all(|b| *b == 0),
+        "x-high-zero-4" => l.x[16..].iter().all(|b| *b == 0),
         "u-low-zero-2" => l.u[0] == 0 && l.u[1] == 0,
         "u-high-zero-2" => l.u[19] == 0 && l.u[18] == 0,
         "x-low-zero-2" => l.x[0] == 0 && l.x[1] == 0,
@@ -278,8 +290,8 @@ pub fn layer1_cases(tier: Tier, seed: u64) -> Vec<Case> {
         }
         let step = if full { 1 } else { 3 };
         for (i, (u, p)) in fam.iter().enumerate() {
-            if i % step != 0 {
-                continue;
+            if i % step != 0 && !u.contains("  ") {
+                continue; // (credentials with blank runs are always kept: normalisation shortcuts show there)
             }
             for (si, s) in ss.iter().enumerate() {
                 if !full && si != 1 {
@@ -340,7 +352,7 @@ pub fn run(o: Oracle, tier: Tier, seed: u64) -> i32 {
         *classes_seen.entry(class.clone()).or_insert(0u64) += 1;
         run_case(&report, o, &cl, case, true, true);
     }
-    for need in ["u-low-zero-2", "u-high-zero-2", "x-low-zero-2", "x-high-zero-2", "S-low-zero-1", "S-low-zero-2", "S-low-zero-3", "S-high-zero-1", "S-high-zero-2", "A-high-zero-1", "B-high-zero-1", "v-high-zero-1", "base-negative", "base-nonnegative"] {
+    for need in ["u-low-zero-2", "u-high-zero-2", "x-low-zero-2", "x-high-zero-2", "S-low-zero-1", "S-low-zero-2", "S-low-zero-3", "S-high-zero-1", "S-high-zero-2", "A-high-zero-1", "B-high-zero-1", "v-high-zero-1", "base-negative", "base-nonnegative", "v-high-zero-4", "A-high-zero-4", "B-high-zero-4", "B-below-2^222", "B-within-2^222-of-N", "u-high-zero-4", "x-high-zero-4"] {
         if !classes_seen.contains_key(need) {
             mc::util::machinery_error(&format!("no stored witness for promised class {need}"));
         }
@@ -404,9 +416,10 @@ pub fn run(o: Oracle, tier: Tier, seed: u64) -> i32 {
         crate::c03_extra::seam_shapes(&report, tier, seed);
         crate::c03_extra::announced_groups(&report, tier, seed);
         crate::c03_extra::constants(&report);
+        crate::c03_extra::steered_server_keys(&report, tier, seed);
     }
 
-    let evals = real + report.get("seam_cases") + report.get("group_cases");
+    let evals = real + report.get("seam_cases") + report.get("group_cases") + report.get("steered_server_key_cases");
     report.set("evaluations", json!(evals));
     report.set("distinct_nontrivial", json!(l1.len() as u64 + l2.len() as u64 + n_scripts + ws.len() as u64));
     report.set("rule", json!("logins are (registered credentials, typed credentials, salt, b, a) tuples enumerated from alphabet products, contiguous ranges and counter-mode RNG scripts (distinct by construction) plus constructed rare-class witnesses re-validated by the reference model; each is executed through the public typestate API with the RNG scripted; distinct_nontrivial = distinct login tuples"));
